@@ -29,14 +29,16 @@ SUBJECT = {
     "C01": [(SE, ["StateEngine.notify", "StateEngine.change_state", "merge_result", "find_state", "parse_rfc3339_datetime", "StateEngine.end_execution"]), (SP, [ALL]), (EXC, [ALL])],
     "C02": [(SE, ["StateEngine.start_execution", "StateEngine.end_execution", N + "handle_terminal_state", N + "handle_error", "StateEngine.check_for_expired_branch_results",
                   "BranchMetadata.__init__", "StateEngine.notify$", "StateEngine.check_pending_results", "StateEngine.branch_has_terminated", N + "asl_state_collect_results"]),
-            (TD, ["TaskDispatcher.handle_sfn_response", "TaskDispatcher.cancel_task"])],
+            (TD, ["TaskDispatcher.handle_sfn_response", "TaskDispatcher.cancel_task"]), ("metrics_summary", [ALL])],
     "C03": [(ED, ["EventDispatcher.dispatch", "EventDispatcher.acknowledge", "EventDispatcher.publish", "EventDispatcher.heartbeat", "EventDispatcher.set_timeout", "EventDispatcher.clear_timeout"]),
             (SE, ["StateEngine.acknowledge_event_list", "StateEngine.check_pending_results", "StateEngine.branch_has_terminated", N + "asl_state_collect_results", N + "handle_terminal_state",
                   "StateEngine.notify$", "StateEngine.end_execution", "StateEngine.check_for_expired_branch_results", N + "asl_state_Wait", N + "asl_state_Task_delegate"]),
             (TD, ["TaskDispatcher.handle_rpcmessage_response", "TaskDispatcher.handle_orphaned_responses", "TaskDispatcher.schedule_orphaned_response_handler", "TaskDispatcher.cancel_task",
                   "TaskDispatcher.remove_canceller", "TaskDispatcher.set_rpcmessage_canceller", "TaskDispatcher.set_sfn_canceller", "TaskDispatcher.set_wait_canceller",
-                  "TaskDispatcher.execute_task", "TaskDispatcher.handle_sfn_response", "TaskDispatcher.handle_unroutable_rpcmessage"])],
-    "C04": [(TD, ["TaskDispatcher.execute_task", "TaskDispatcher.handle_rpcmessage_response", "TaskDispatcher.handle_orphaned_responses", "TaskDispatcher.schedule_orphaned_response_handler",
+                  "TaskDispatcher.execute_task$", "TaskDispatcher.execute_task.timeout_callback", "TaskDispatcher.execute_task.send_error_callback",
+                  "TaskDispatcher.handle_sfn_response", "TaskDispatcher.handle_unroutable_rpcmessage"]),
+            (AM, ["Connection.set_timeout", "Connection.clear_timeout", "Message.acknowledge", "Session.acknowledge"]), (AMA, ["Connection.set_timeout", "Connection.clear_timeout", "Message.acknowledge", "Session.acknowledge"])],
+    "C04": [(TD, ["TaskDispatcher.execute_task$", "TaskDispatcher.execute_task.asl_service_rpcmessage", "TaskDispatcher.execute_task.asl_service_states_startExecution", "TaskDispatcher.handle_rpcmessage_response", "TaskDispatcher.handle_orphaned_responses", "TaskDispatcher.schedule_orphaned_response_handler",
                   "TaskDispatcher.start", "TaskDispatcher.start_asyncio"]),
             (ED, ["EventDispatcher.dispatch", "EventDispatcher.acknowledge", "EventDispatcher.start", "EventDispatcher.start_asyncio"]),
             (SE, ["StateEngine.update_execution_history", "StateEngine.start_execution", "StateEngine.notify$", N + "asl_state_Task_delegate", N + "asl_state_Wait", N + "handle_error"]),
@@ -45,11 +47,16 @@ SUBJECT = {
                   "StateEngine.branch_has_terminated", "StateEngine.check_pending_results", N + "handle_terminal_state"])],
     "C06": [(SE, [N + "asl_state_collect_results", "StateEngine.branch_has_terminated", "StateEngine.check_pending_results", "StateEngine.acknowledge_event_list", N + "handle_error",
                   N + "handle_terminal_state", N + "asl_state_Task_delegate", N + "asl_state_Wait"]),
-            (TD, ["TaskDispatcher.cancel_task", "TaskDispatcher.branch_has_terminated", "TaskDispatcher.handle_rpcmessage_response", "TaskDispatcher.handle_sfn_response", "TaskDispatcher.execute_task"])],
+            (TD, ["TaskDispatcher.cancel_task", "TaskDispatcher.branch_has_terminated", "TaskDispatcher.handle_rpcmessage_response", "TaskDispatcher.handle_sfn_response",
+                  "TaskDispatcher.execute_task.timeout_callback"]),
+            (AM, ["Connection.set_timeout", "Connection.clear_timeout"]), (AMA, ["Connection.set_timeout", "Connection.clear_timeout"])],
     "C07": [(SE, [N + "handle_error", "StateEngine.change_state", N + "asl_state_Task", N + "asl_state_Parallel", N + "asl_state_Map", N + "asl_state_Parallel_delegate", N + "asl_state_Map_delegate",
-                  N + "asl_state_collect_results", N + "asl_state_Task_delegate"])],
+                  N + "asl_state_collect_results", N + "asl_state_Task_delegate"]),
+            (TD, ["TaskDispatcher.handle_rpcmessage_response", "TaskDispatcher.execute_task.timeout_callback"])],
     "C08": [(SE, ["parse_rfc3339_datetime", N + "asl_state_Wait", N + "asl_state_Task_delegate", "StateEngine.check_for_expired_branch_results", "BranchMetadata.__init__", N + "asl_state_Choice"]),
-            (TD, ["TaskDispatcher.execute_task", "TaskDispatcher.cancel_task"]), (ED, ["EventDispatcher.set_timeout", "EventDispatcher.clear_timeout", "EventDispatcher.heartbeat"]),
+            (TD, ["TaskDispatcher.execute_task$", "TaskDispatcher.execute_task.timeout_callback", "TaskDispatcher.execute_task.asl_service_rpcmessage", "TaskDispatcher.cancel_task"]),
+            (ED, ["EventDispatcher.set_timeout", "EventDispatcher.clear_timeout", "EventDispatcher.heartbeat"]),
+            (RA, ["RestAPI.create_app.handle_post.aws_api_StartExecution"]), (RB, ["RestAPI.create_app.handle_post.aws_api_StartExecution", "RestAPI.create_app.handle_post.aws_api_StartSyncExecution"]),
             (AM, ["Connection.set_timeout", "Connection.clear_timeout"]), (AMA, ["Connection.set_timeout", "Connection.clear_timeout"])],
     "C09": [(SE, ["StateEngine.update_execution_history", "StateEngine.notify$", "StateEngine.change_state", "StateEngine.start_execution", "StateEngine.end_execution", N + "handle_terminal_state",
                   N + "asl_state_collect_results", "StateEngine.check_pending_results"]),
@@ -62,7 +69,8 @@ SUBJECT = {
     "C12": [(SP, ["apply_jsonpath", "apply_path", "get_full_jsonpath", "apply_resultpath"]), (SE, ["merge_result"]), (EXC, [ALL])],
     "C13": [(SP, ["evaluate_payload_template"]), (EXC, [ALL])],
     "C14": [(SE, [N + "asl_state_Choice", "parse_rfc3339_datetime"]), (SP, ["apply_path", "apply_jsonpath"])],
-    "C15": [(TD, ["TaskDispatcher.execute_task", "TaskDispatcher.handle_sfn_response", "TaskDispatcher.cancel_task", "TaskDispatcher.handle_rpcmessage_response", "TaskDispatcher.remove_canceller",
+    "C15": [(TD, ["TaskDispatcher.execute_task$", "TaskDispatcher.execute_task.asl_service_states", "TaskDispatcher.execute_task.asl_service_states_startExecution",
+                  "TaskDispatcher.execute_task.asl_service_InvalidService", "TaskDispatcher.execute_task.timeout_callback", "TaskDispatcher.handle_sfn_response", "TaskDispatcher.cancel_task", "TaskDispatcher.handle_rpcmessage_response", "TaskDispatcher.remove_canceller",
                   "TaskDispatcher.set_sfn_canceller", "TaskDispatcher.set_rpcmessage_canceller", "TaskDispatcher.set_wait_canceller", "TaskDispatcher.handle_unroutable_rpcmessage"]),
             (RB, ["RestAPI.create_app.handle_post.aws_api_SendTaskSuccess", "RestAPI.create_app.handle_post.aws_api_SendTaskFailure", "RestAPI.create_app.handle_post.aws_api_StartSyncExecution"]),
             (SE, ["StateEngine.end_execution", "StateEngine.start_execution", N + "asl_state_Task_delegate"])],
@@ -79,11 +87,12 @@ SUBJECT = {
                   "RestAPI.create_app.handle_post.aws_api_StartSyncExecution", "RestAPI.create_app.handle_post.aws_api_CreateStateMachine"]),
             (SE, ["StateEngine.end_execution", "StateEngine.update_execution_history", "StateEngine.check_for_expired_branch_results", "StateEngine.start_execution", "StateEngine.broadcast_notification",
                   "StateEngine.notify$"]),
-            (TD, ["TaskDispatcher.execute_task"])],
+            (TD, ["TaskDispatcher.execute_task.asl_service_states_startExecution"])],
     "C18": [(SL, [ALL]), (J2, [ALL]), (ED, ["EventDispatcher.dispatch", "EventDispatcher.heartbeat"]), (SE, ["StateEngine.notify$", "find_state", "BranchMetadata.__init__",
                                                                                                              "StateEngine.check_for_expired_branch_results"])],
     "C19": [(AM, [ALL]), (AMA, [ALL]), (ED, ["EventDispatcher.start", "EventDispatcher.start_asyncio", "EventDispatcher.publish", "EventDispatcher.broadcast", "EventDispatcher.dispatch"]),
-            (TD, ["TaskDispatcher.start", "TaskDispatcher.start_asyncio", "TaskDispatcher.execute_task", "TaskDispatcher.handle_rpcmessage_response"])],
+            (TD, ["TaskDispatcher.start", "TaskDispatcher.start_asyncio", "TaskDispatcher.execute_task.asl_service_rpcmessage", "TaskDispatcher.execute_task.asl_service_states_startExecution",
+                  "TaskDispatcher.handle_rpcmessage_response"])],
     "C20": [(ST, [ALL]), (SE, ["StateEngine.__init__", "StateEngine.update_execution_history", "StateEngine.start_execution", "StateEngine.notify$"])],
 }
 
@@ -106,7 +115,7 @@ def _class_shape(tree):
     for n in ast.walk(tree):
         if isinstance(n, ast.ClassDef):
             bases = tuple(ast.unparse(b) for b in n.bases)
-            meths = tuple(sorted(m.name for m in n.body if isinstance(m, (ast.FunctionDef, ast.AsyncFunctionDef)) and m.name.startswith("__")))
+            meths = tuple(sorted(m.name for m in n.body if isinstance(m, (ast.FunctionDef, ast.AsyncFunctionDef)) and m.name.startswith("__") and m.name != "__repr__"))
             attrs = tuple(sorted(ast.unparse(t) for s in n.body if isinstance(s, ast.Assign) for t in s.targets))
             out[n.name] = (bases, meths, attrs)
     return out
